@@ -466,14 +466,17 @@ def run(ctx):
     r9.need(20)
 
     # ---------------- R14.11 an integer spelling never becomes a float
-    r11 = ctx.rule('R14.11', 'the float parse of a number literal is reached only after the spelling has been tested for being an integer spelling')
+    r11 = ctx.rule('R14.11', 'a number literal becomes a float literal only after its spelling has been tested for being an integer spelling')
     from .lib import cdeps
     for b in ctx.mir.bodies:
         if b.file != 'src/parser.rs':
             continue
-        for bb, t in b.calls():
-            nm = t.get('callee') or t.get('decl') or ''
-            if not (strip_generics(nm).endswith('str>::parse') and 'f64' in ' '.join(t.get('substs') or [nm])):
+        # where a float literal is produced from the text: the LiteralFloat constructions downstream of a str::parse::<f64>
+        parses = [pb for pb, t in b.calls() if strip_generics(t.get('callee') or t.get('decl') or '').endswith('str>::parse') and 'f64' in ' '.join(t.get('substs') or [t.get('callee') or ''])]
+        if not parses:
+            continue
+        for bb, sj, s_ in [(i, j, s) for i, j, s in b.stmts() if s['k'] == 'assign' and s['rv']['k'] == 'agg' and (s['rv'].get('adt') or '').endswith('XStaticExpr') and s['rv'].get('v') == 'LiteralFloat']:
+            if not any(bb in b.reachable(pb) for pb in parses):
                 continue
             L, S = cdeps.influence(b, blocks=[bb])
             tested = False
@@ -492,7 +495,7 @@ def run(ctx):
                             if any(c is not None and "'_'" in c for c in consts):
                                 continue
                             tested = True
-            r11.inst({'fn': b.nid, 'site': mirq.site(b, bb), 'spelling_tested_before_float_parse': tested}, ok=tested, kind=(b.nid, bb))
+            r11.inst({'fn': b.nid, 'site': mirq.site(b, bb, sj), 'spelling_tested_before_float_literal': tested}, ok=tested, kind=(b.nid, bb))
             if not tested:
-                r11.fail('parser/number-literal/integer-falls-to-float', mirq.site(b, bb), 'a number literal that fails the integer parse (too large for the literal representation) is handed to the float parse without asking whether it is spelled as an integer: 170141183460469231731687303715884105728 silently becomes 1.7014118346046923e38')
+                r11.fail('parser/number-literal/integer-falls-to-float', mirq.site(b, bb, sj), 'a number literal that fails the integer parse (too large for the literal representation) is handed to the float parse without asking whether it is spelled as an integer: 170141183460469231731687303715884105728 silently becomes 1.7014118346046923e38')
     r11.need(1)
